@@ -5,7 +5,7 @@ from harness.common import coq_Z, coq_bool, coq_float, coq_list
 
 HEADER = """From Coq Require Import ZArith List Bool.
 From Coq Require Import Uint63 FloatOps SpecFloat PrimFloat.
-From PV Require Import Model.Base Model.Emu Model.EmuCheck.
+From PV Require Import Model.Base Model.Emu Model.EmuHist Model.EmuCheck.
 Import ListNotations.
 Open Scope Z_scope.
 """
@@ -89,6 +89,15 @@ def check_term(c) -> str:
         )
     if k == "multinomial":
         return "(CMultinomial %s %s %s)" % (fl(c["probs"]), fl(c["us"]), zl(c["impl"]))
+    if k == "hist":
+        ops = []
+        for o in c["ops"]:
+            if o[0] == "set":
+                ops.append("(HSetConfig {| h_spam := %s; h_eta := %s |} %s)" % (coq_bool(o[1]), coq_float(o[2]), fl(o[3])))
+            else:
+                ops.append("(HRun %s)" % coq_list(fl(r) for r in o[1]))
+        obs = coq_list(coq_list(coq_bool(b) for b in row) for row in c["observed"])
+        return "(CHist %d%%nat %s %s)" % (c["n"], coq_list(ops), obs)
     if k == "index":
         impl = sum_l(coq_Z(c["impl"])) if c["status"] == "ok" else sum_r(c["impl"])
         return "(CIndex %s %s %s %s)" % (coq_float(c["t"]), coq_float(c["tol"]), fl(c["times"]), impl)
